@@ -2,6 +2,8 @@ import PlzVerif.Lemmas.SchedProgress
 import PlzVerif.Lemmas.SchedFinal
 import PlzVerif.Lemmas.SchedFacts
 import PlzVerif.Lemmas.SchedRun
+import PlzVerif.Lemmas.SchedStuck
+import PlzVerif.Lemmas.SchedNeeded
 import PlzVerif.Generated.C04
 /-!
 C05  Builds always terminate and report failure faithfully.
@@ -10,13 +12,20 @@ Same model as C04 (`Model/Sched.lean`); failures are the `workerFail` action (a 
 `queuerAbort` action (`asyncError`: a dependency cannot be queued — the target stays Active without a queuer, the
 queues are stopped); `--keep_going` off is the external `stop` action arriving after a failure
 (output/targets.go:106, pinned by the `sk_handleOutput` fact); a dependency failure propagates through the
-`DependencyFailed` branch of the queuer.  Real time, the 5 s cycle timer and the Go scheduler are not in the
-model: "terminates" is "no infinite execution", "no deadlock" is "some goroutine can step unless Run returns".
+`DependencyFailed` branch of the queuer.  Real time and the Go scheduler are not in the model: "terminates" is "no
+infinite execution", "no deadlock" is "some goroutine can step unless Run returns".  The idle-time cycle check is the
+`cycleCheck` action: enabled whenever `forwardResults` has no active target (the 5 s timer is armed only then) and the
+graph has a cycle the detector reports (`Cfg.hasCycle`, C06); the goroutines waiting for a target to be built
+(`WaitForBuiltTarget`: the parse of a package that subincludes it) are the `subWait` action and the `waitTarget` phase.
+How a *failed* target is treated by the active set and by those waiters is read from the code (`Cfg.failClears`,
+`Cfg.failWakes`, `Cfg.lateOK` — `C05_facts_ok` establishes `true` for the code at hand; the section "Liveness mechanisms
+outside the task counting" has the theorems and, for the three repaired hangs, witnesses under the old values).
 
 **What these theorems do NOT cover (the parse phase).**  Three of the property's anchors are outside the model:
 `SyncParsePackage` / `WaitForPackage` (waiters on `pendingPackages` / `packageWaits`, state.go:847-897), the
 `ErrMap.GetOrSet` waiters of subincludes (cerrmap.go:62; their wake-up discipline is C15's subject) and parse tasks
-(`addPendingParse`).  In particular the hang the property is motivated by — a waiter on a package whose parse failed:
+(`addPendingParse`; only the one parse task per subincluded target that waits in `WaitForBuiltTarget` is modelled, counted
+during the initial scan).  In particular the hang the property is motivated by — a waiter on a package whose parse failed:
 `LogParseResult` closes the channel only on `PackageParsed` — is not excluded by any theorem here; what ends such a run
 is `Stop()` from the display loop on `ParseFailed` (even with --keep_going).  Those functions are pinned as facts
 (`C05_facts_ok`: `sk_SyncParsePackage`, `sk_WaitForPackage`, `sk_LogParseResult`, `sk_addPendingParse`,
@@ -82,11 +91,12 @@ theorem C05_terminates (hwf : WF c) : WellFounded (fun s' s => Reach c s ∧ Ste
     the header): in every reachable state either `plz.Run` is about to return (queues closed and drained, all
     workers done) or some goroutine of the scheduler can take a step — whatever commands fail, whichever
     dependencies cannot be queued, with or without an external `Stop`. -/
-theorem C05_no_deadlock_build_phase_partial {s : St} (hr : Reach c s) (hacy : Acyclic c) : Final s ∨ CanStep c s :=
-  no_deadlock c hr hacy
+theorem C05_no_deadlock_build_phase_partial {s : St} (hr : Reach c s) (hacy : Acyclic c)
+    (hfw : c.failWakes = true) (hlo : c.lateOK = true) : Final s ∨ CanStep c s :=
+  no_deadlock c hr hacy hfw hlo
 
 -- `Acyclic` is satisfiable by graphs with edges: a diamond 3 → {1,2} → 0
-example : Acyclic ⟨4, fun t => if t = 3 then [1, 2] else if t = 1 ∨ t = 2 then [0] else [], true⟩ :=
+example : Acyclic { n := 4, deps := fun t => if t = 3 then [1, 2] else if t = 1 ∨ t = 2 then [0] else [], needBuild := true } :=
   ⟨fun t => t, by
     intro t d h
     show d < t
@@ -106,7 +116,7 @@ theorem C05_step_changes_state (hwf : WF c) {s s' : St} (hr : Reach c s) {a : Ac
   · exact e
 
 /-- two targets that depend on each other -/
-def cyc2 : Cfg := ⟨2, fun t => if t = 0 then [1] else if t = 1 then [0] else [], true⟩
+def cyc2 : Cfg := { n := 2, deps := fun t => if t = 0 then [1] else if t = 1 then [0] else [], needBuild := true, hasCycle := true }
 
 /-- the state after: target 0 requested; its queuer activates 1 and starts waiting; 1's queuer finds 0 already
     active and starts waiting; the initial scan is done -/
@@ -180,6 +190,8 @@ theorem C05_witness_cycle_needs_detector :
     | workerFail w => simp [fire, hws w] at hf
     | workerDone w => simp [fire, hws w] at hf
     | initDone => simp [fire, hid] at hf
+    | subWait t => exact hint
+    | cycleCheck => exact hint
 
 /-- **C05, completeness half (final state of a keep-going run).**
     For every graph with acyclic, in-range dependencies, with `NeedBuild`:
@@ -195,11 +207,13 @@ theorem C05_witness_cycle_needs_detector :
         (`Tainted`), with state Failed resp. DependencyFailed;
       - every requested target that is not tainted ends in a Built state and is reported built or cached.
     The same holds for every target a requested one needs (`s.st t ≠ .inactive`), see `final_state`.
+    (`C05_exit_flag_iff_requested_tainted`: the flag is set iff some requested target is tainted.)
     Not covered (stated in the header): the parse phase, runs in which the queues are stopped from outside
     (no --keep_going after a failure, the cycle check, `asyncError`) — there unbuilt requested targets remain and
     only "exit flag set" (`C05_failure_sets_exit_flag`) holds; the translation of the flag into the process exit
     status (`toExitCode`), which is checked end to end. -/
-theorem C05_final_complete (hn : c.needBuild = true) (hwf : WF c) (hacy : Acyclic c) :
+theorem C05_final_complete (hn : c.needBuild = true) (hwf : WF c) (hacy : Acyclic c)
+    (hfw : c.failWakes = true) (hlo : c.lateOK = true) :
     WellFounded (fun s' s => Reach c s ∧ Step c s s' ∧ s' ≠ s) ∧
     ∀ (req : List T) (s : St), RunKG c req s → ¬ CanStep c s →
       Final s ∧ (s.failed = true ↔ ∃ t, s.st t = .failed) ∧ ((∃ t ∈ req, Tainted c s t) → s.failed = true) ∧
@@ -209,7 +223,7 @@ theorem C05_final_complete (hn : c.needBuild = true) (hwf : WF c) (hacy : Acycli
         (¬ Tainted c s t → (s.st t).isBuilt = true ∧ (s.res t = some .built ∨ s.res t = some .cached)) := by
   refine ⟨C05_terminates c hwf, ?_⟩
   intro req s hrun hmax
-  obtain ⟨hfin, _, hterm, hbad, hbuilt, hflag⟩ := final_state c hn hacy hrun hmax
+  obtain ⟨hfin, _, hterm, hbad, hbuilt, hflag⟩ := final_state c hn hacy hfw hlo hrun hmax
   have hi := reach_inv c (runKG_reach c hrun)
   have kg := runKG_inv c hrun
   refine ⟨hfin, hflag, ?_, ?_⟩
@@ -249,8 +263,25 @@ theorem C05_final_complete (hn : c.needBuild = true) (hwf : WF c) (hacy : Acycli
         have := hk.2.mp e; rw [this] at hbu; revert hbu; decide
       cases r <;> simp_all
 
+/-- **The exit flag, both directions, in terms of what was asked for**: at every point of a keep-going run the flag
+    `progress.failed` is set exactly when some *requested* target (or a target some package subincludes) has failed or
+    transitively depends on a target that has failed — nothing is built, and so nothing can fail, that was not asked
+    for (`runKG_needed`).  With `C05_final_complete` (every requested target is reported as failed / dependency-failed
+    exactly when tainted): the run exits non-zero iff some requested target could not be built. -/
+theorem C05_exit_flag_iff_requested_tainted {req : List T} {s : St} (hrun : RunKG c req s) :
+    s.failed = true ↔ ∃ r, (r ∈ req ∨ s.sw r = true) ∧ Tainted c s r := by
+  have hi := reach_inv c (runKG_reach c hrun)
+  constructor
+  · intro hf
+    obtain ⟨t, ht⟩ := (runKG_inv c hrun).failedWitness hf
+    obtain ⟨r, hsrc, hp⟩ := runKG_needed c hrun t (by rw [ht]; decide)
+    exact ⟨r, hsrc, tainted_of_path c hp (.self ht)⟩
+  · intro ⟨r, _, hta⟩
+    obtain ⟨d, hd⟩ := tainted_has_failed c hta
+    exact hi.failedFlag d hd
+
 /-- a failing leaf 0 with two dependants 1 and 2, and an independent target 3 -/
-def leafFails : Cfg := ⟨4, fun t => if t = 1 ∨ t = 2 then [0] else [], true⟩
+def leafFails : Cfg := { n := 4, deps := fun t => if t = 1 ∨ t = 2 then [0] else [], needBuild := true }
 
 /-- 1, 2 and 3 are requested; 3 and 0 are queued and dispatched; 3 is built, 0 fails; the queuers of 1 and 2 find
     their dependency failed; everybody finishes; the initial scan ends -/
@@ -305,6 +336,203 @@ example : RunKG leafFails [3, 2, 1] leafFailsEnd ∧ ¬ CanStep leafFails leafFa
     · simp at h
   exact ⟨hrun, quiet_not_canStep leafFails (quiet_of_units leafFails hi hu), hwf, hacy, rfl, rfl, rfl, rfl, rfl, rfl,
     .dep (d := 0) (by decide) (.self rfl), rfl, rfl⟩
+
+/-! ## Liveness mechanisms outside the task counting: the cycle check's arming and the waiters of a target
+
+Three repaired defects (/repo 377a4ab, ed8e9e3, 52b6f63) concern exactly these; for each the model carries the
+mechanism, the theorem for the repaired code, and a witness (`C05_old_*`) that with the OLD value of the fact the model
+reaches a state in which nothing but an external `Stop` changes anything — the hang. -/
+
+/-- **No deadlock on any graph, cycles included, with the idle-time cycle check** (keep-going or not, whatever fails):
+    in every reachable state `plz.Run` is about to return, or some goroutine can step, or `forwardResults` has no active
+    target and starts the cycle check, which finds the cycle.  Needs: a failure result clears its target from the active
+    set (`failClears`), failures wake the waiters of a target (`failWakes`), a failed target is not waited for
+    (`lateOK`) — all three are facts of the code (`C05_facts_ok`); `hcyc`: a graph in which the detector finds no cycle
+    is acyclic (C06). -/
+theorem C05_no_deadlock_with_cycle_check {s : St} (hr : Reach c s) (hcyc : c.hasCycle = false → Acyclic c)
+    (hfc : c.failClears = true) (hfw : c.failWakes = true) (hlo : c.lateOK = true) :
+    Final s ∨ CanStep c s ∨ (fire c s .cycleCheck).isSome = true :=
+  no_deadlock_cyclic c hr hcyc hfc hfw hlo
+
+/-- the cycle check closes the queues and sets the exit flag (`asyncError`); what is left is draining: from then on
+    every reachable state is final or has an enabled step, on any graph -/
+theorem C05_cycle_check_stops_and_flags {s s' : St} (h : fire c s .cycleCheck = some s') :
+    s'.stopped = true ∧ s'.failed = true ∧ (Final s' ∨ CanStep c s') := by
+  simp only [fire] at h
+  split at h
+  · cases h; exact ⟨rfl, rfl, stopped_final_or_step c rfl⟩
+  · cases h
+
+/-- **Termination with --keep_going, a failing target and a cycle** (and with a failing subincluded target): no
+    infinite execution, and no reachable state in which the build sits idle for ever — every maximal execution ends in
+    a `Final` state, if necessary through the cycle check. -/
+theorem C05_keep_going_terminates (hwf : WF c) (hcyc : c.hasCycle = false → Acyclic c)
+    (hfc : c.failClears = true) (hfw : c.failWakes = true) (hlo : c.lateOK = true) :
+    WellFounded (fun s' s => Reach c s ∧ Step c s s' ∧ s' ≠ s) ∧
+    ∀ s, Reach c s → ¬ Final s → (∃ a s', (Internal a ∨ a = .cycleCheck) ∧ fire c s a = some s' ∧ mu c s' < mu c s) := by
+  refine ⟨C05_terminates c hwf, ?_⟩
+  intro s hr hnf
+  have hi := reach_inv c hr
+  have h2 := reach_inv2 c hwf hr
+  rcases no_deadlock_cyclic c hr hcyc hfc hfw hlo with h | ⟨a, s', hint, hf⟩ | h
+  · exact absurd h hnf
+  · exact ⟨a, s', .inl hint, hf, C05_step_changes_state c hwf hr hint hf⟩
+  · cases hf : fire c s .cycleCheck with
+    | none => rw [hf] at h; cases h
+    | some s' =>
+      refine ⟨.cycleCheck, s', .inr rfl, hf, ?_⟩
+      rcases step_mu c hi h2 .cycleCheck hf with e | e
+      · exfalso
+        have := (C05_cycle_check_stops_and_flags c hf).1
+        simp only [fire] at hf
+        split at hf
+        · rename_i hg
+          rw [e.1] at this
+          simp [this] at hg
+        · cases hf
+      · exact e
+
+/-- **Nobody is left waiting for a target**: at the end of a maximal keep-going run on an acyclic graph no goroutine
+    remains — in particular none inside `WaitForBuiltTarget`, whether the target it waited for was built or failed. -/
+theorem C05_waiters_all_released (hn : c.needBuild = true) (hacy : Acyclic c) (hfw : c.failWakes = true)
+    (hlo : c.lateOK = true) {req : List T} {s : St} (hrun : RunKG c req s) (hmax : ¬ CanStep c s) :
+    Final s ∧ ∀ i, s.qs i = none := by
+  obtain ⟨hfin, hq, _⟩ := final_state c hn hacy hfw hlo hrun hmax
+  exact ⟨hfin, hq.2.1⟩
+
+/-! ### witness 1: the active set (377a4ab) -/
+
+/-- target 0 fails; 1 and 2 depend on each other; `fc`: does a failure result clear the active set -/
+def failCyc (fc : Bool) : Cfg :=
+  { n := 3, deps := fun t => if t = 1 then [2] else if t = 2 then [1] else [], needBuild := true,
+    failClears := fc, hasCycle := true }
+
+/-- 0 and 1 are requested; 0 is queued, dispatched and fails; the queuers of 1 and 2 end up waiting for each other -/
+def failCycSchedule : List Action :=
+  [.activate 0 false, .activate 1 false, .queuer 0, .queuer 0, .queuer 0, .queuer 1, .queuer 1, .queuer 2, .queuer 2,
+   .take 0, .workerStart 0, .workerFail 0, .workerDone 0, .initDone]
+
+def failCycState (fc : Bool) : St := after (failCyc fc) failCycSchedule
+
+/-- **OLD fact value** (active set keyed by target pointer, never cleared by a failure): `plz build --keep_going
+    //pkg:fail //pkg:a` with a cycle a → b → a reaches a state in which the failed target is still "active", so the
+    cycle check is never armed, no goroutine can step, `numPending` stays at 2 and the run is not over: it hangs. -/
+theorem C05_old_active_set_blocks_cycle_check :
+    Reach (failCyc false) (failCycState false) ∧ Stuck (failCyc false) (failCycState false) ∧
+    (failCycState false).numPending = 2 ∧ (failCycState false).st 0 = .failed ∧ (failCycState false).active 0 = true := by
+  have hr : Reach (failCyc false) (failCycState false) := after_reach _ _ rfl
+  have hi := reach_inv _ hr
+  refine ⟨hr, ?_, rfl, rfl, rfl⟩
+  apply stuck_of
+  · rfl
+  · rfl
+  · exact none_from1 _ (fun i x h => hi.mFresh i x h) rfl
+  · exact none_from1 _ (fun i x h => hi.wFresh i x h) rfl
+  · intro i q hq
+    have hlt : i < 3 := hi.qFresh i q hq
+    have : i = 0 ∨ i = 1 ∨ i = 2 := by omega
+    rcases this with rfl | rfl | rfl
+    · have e : (failCycState false).qs 0 = none := rfl
+      rw [e] at hq; cases hq
+    · have e : (failCycState false).qs 1 = some ⟨1, true, false, .waitDeps [2]⟩ := rfl
+      rw [e] at hq; cases hq
+      exact ⟨rfl, fun d r h => by cases h⟩
+    · have e : (failCycState false).qs 2 = some ⟨2, true, false, .waitDeps [1]⟩ := rfl
+      rw [e] at hq; cases hq
+      exact ⟨rfl, fun d r h => by cases h⟩
+  · intro t f ht
+    have ht' : t < 3 := ht
+    have : t = 0 ∨ t = 1 ∨ t = 2 := by omega
+    rcases this with rfl | rfl | rfl <;> cases f <;> rfl
+  · rfl
+
+def failCycEnd : St := after (failCyc true) (failCycSchedule ++ [.cycleCheck])
+
+/-- **Repaired**: the same schedule leaves the active set empty, the cycle check fires, the queues are closed, the
+    exit flag is set and `plz.Run` returns. -/
+theorem C05_failure_and_cycle_ends_by_cycle_check :
+    Reach (failCyc true) (failCycState true) ∧ (failCycState true).active 0 = false ∧
+    fire (failCyc true) (failCycState true) .cycleCheck = some failCycEnd ∧
+    Reach (failCyc true) failCycEnd ∧ Final failCycEnd ∧ failCycEnd.failed = true := by
+  have hr : Reach (failCyc true) failCycEnd := after_reach _ _ rfl
+  have hi := reach_inv _ hr
+  refine ⟨after_reach _ _ rfl, rfl, rfl, hr, ⟨rfl, ?_, ?_⟩, rfl⟩
+  · exact none_from1 _ (fun i x h => hi.mFresh i x h) rfl
+  · exact none_from1 _ (fun i x h => hi.wFresh i x h) rfl
+
+/-! ### witnesses 2 and 3: the waiters of a target (ed8e9e3, 52b6f63) -/
+
+/-- one target (the subincluded one), whose command fails; `fw`: are its waiters signalled on failure; `lo`: does
+    `WaitForBuiltTarget` return at once for a target that has already failed -/
+def subCfg (fw lo : Bool) : Cfg := { n := 1, deps := fun _ => [], needBuild := true, failWakes := fw, lateOK := lo }
+
+/-- the parse of the subincluding package asks for the target first (registers the channel, queues the target); then
+    the target is dispatched and fails -/
+def subScheduleA : List Action :=
+  [.subWait 0, .queuer 0, .queuer 0, .queuer 0, .take 0, .workerStart 0, .workerFail 0, .workerDone 0, .initDone]
+
+/-- the target is requested, built and fails; only then does the parse of a subincluding package ask for it -/
+def subScheduleB : List Action :=
+  [.activate 0 false, .queuer 0, .queuer 0, .queuer 0, .take 0, .workerStart 0, .workerFail 0, .workerDone 0,
+   .subWait 0, .initDone]
+
+theorem stuck_waiter (c : Cfg) (hn : c.n = 1) (sch : List Action) (hsome : (runActs c St.init sch).isSome = true)
+    (h0 : (after c sch).qs 0 = none) (h1 : (after c sch).qs 1 = some ⟨0, false, true, .waitTarget 0⟩)
+    (hw : (after c sch).woken 0 = false) (hnq : (after c sch).nextQ = 2) (hnm : (after c sch).nextM = 1)
+    (hnw : (after c sch).nextW = 1) (hm : (after c sch).chan 0 = none) (hws : (after c sch).ws 0 = none)
+    (hinit : (after c sch).initDone = true) (hst : (after c sch).stopped = false)
+    (hact : ∀ f, qrt c (after c sch) 0 f = after c sch) (hcc : fire c (after c sch) .cycleCheck = none) :
+    Reach c (after c sch) ∧ Stuck c (after c sch) := by
+  have hr : Reach c (after c sch) := after_reach _ _ hsome
+  have hi := reach_inv _ hr
+  refine ⟨hr, ?_⟩
+  apply stuck_of
+  · exact hinit
+  · exact hst
+  · exact none_from1 _ (fun i x h => by have := hi.mFresh i x h; omega) hm
+  · exact none_from1 _ (fun i x h => by have := hi.wFresh i x h; omega) hws
+  · intro i q hq
+    have hlt := hi.qFresh i q hq
+    have : i = 0 ∨ i = 1 := by omega
+    rcases this with rfl | rfl
+    · rw [h0] at hq; cases hq
+    · rw [h1] at hq; cases hq
+      exact ⟨by simp [queuerStep, hw], fun d r h => by cases h⟩
+  · intro t f ht
+    have : t = 0 := by omega
+    subst this; exact hact f
+  · exact hcc
+
+/-- **OLD fact value** (`build.Build` does not signal the waiters of a failed target): `plz build --keep_going //pkg:a`
+    where pkg/BUILD subincludes a target whose command fails reaches a state in which the parse task waits on
+    `pendingTargets` for ever: the target is Failed, the channel is never closed, `numPending` stays at 1. -/
+theorem C05_old_failed_subinclude_never_wakes_waiter :
+    Reach (subCfg false true) (after (subCfg false true) subScheduleA) ∧
+    Stuck (subCfg false true) (after (subCfg false true) subScheduleA) ∧
+    (after (subCfg false true) subScheduleA).st 0 = .failed ∧ (after (subCfg false true) subScheduleA).numPending = 1 := by
+  obtain ⟨h1, h2⟩ := stuck_waiter (subCfg false true) rfl subScheduleA rfl rfl rfl rfl rfl rfl rfl rfl rfl rfl rfl
+    (fun f => by cases f <;> rfl) rfl
+  exact ⟨h1, h2, rfl, rfl⟩
+
+/-- **OLD fact value** (`WaitForBuiltTarget` waits even for a target that has already failed): when the target fails
+    before the first waiter has registered its channel, the failure is signalled to nobody; the waiter that arrives
+    later registers a channel nobody will close. -/
+theorem C05_old_waiter_after_failure_waits_for_ever :
+    Reach (subCfg true false) (after (subCfg true false) subScheduleB) ∧
+    Stuck (subCfg true false) (after (subCfg true false) subScheduleB) ∧
+    (after (subCfg true false) subScheduleB).st 0 = .failed ∧ (after (subCfg true false) subScheduleB).numPending = 1 := by
+  obtain ⟨h1, h2⟩ := stuck_waiter (subCfg true false) rfl subScheduleB rfl rfl rfl rfl rfl rfl rfl rfl rfl rfl rfl
+    (fun f => by cases f <;> rfl) rfl
+  exact ⟨h1, h2, rfl, rfl⟩
+
+/-- **Repaired**, both orders: the waiter is woken (resp. does not wait), releases its task, the counter reaches 0, the
+    queues are closed, the exit flag is set, nobody is left waiting. -/
+theorem C05_failed_subinclude_run_ends :
+    (let s := after (subCfg true true) (subScheduleA ++ [.queuer 1, .queuer 1])
+     Reach (subCfg true true) s ∧ units s = 0 ∧ s.stopped = true ∧ s.failed = true ∧ s.numPending = 0) ∧
+    (let s := after (subCfg true true) subScheduleB
+     Reach (subCfg true true) s ∧ units s = 0 ∧ s.stopped = true ∧ s.failed = true ∧ s.numPending = 0) :=
+  ⟨⟨after_reach _ _ rfl, rfl, rfl, rfl, rfl⟩, ⟨after_reach _ _ rfl, rfl, rfl, rfl, rfl⟩⟩
 
 /-- **Never runs a target whose dependency failed**: a target with a failed (or dependency-failed) dependency
     has not been started and, being unable to pass the wait for that dependency, never will be. -/
